@@ -219,6 +219,144 @@ def job_class(ctx: Ctx, cfg, scalar=False, inverse_wrap=False):
                   replay=make_replay(cfg, "monotone", None, inverse_wrap), key=f"{key}:monotone")
 
 
+def job_endpoints(ctx: Ctx, cfg, trim=True):
+    """images of the reference end points: domain ends for the finite-domain maps, 0 and b for the b-scaled maps."""
+    rt = _load()
+    npproxy.install(rt)
+    e = ctx.engine
+    P = {n: real(n) for n in cfg["pnames"]}
+    e.assume(*cfg["assume"](P))
+    if "rmin" in P:
+        e.assume(P["rmin"] < K(10) ** 16)
+    cls = getattr(rt, cfg["cls"])
+    ctx.encoded(cls, rt.BaseTransform._convert_inf)
+    key = f"{cfg['cls']}" + (f":{'k' if 'Knowles' in cfg['cls'] else 'm'}={cfg['fk']}" if cfg["fk"] else "") + ":end-points"
+    ctx.bounds.update(dict(cls=cfg["cls"], integer_exponent=cfg["fk"], trim_inf=trim))
+
+    def replay(m):
+        with unpatched(rt):
+            Pf = _fl(m, cfg["pnames"])
+            tf = cfg["mk"](rt, Pf)
+            if hasattr(tf, "trim_inf"):
+                tf.trim_inf = trim
+            ref = np.array([0.0, Pf["b"]]) if "b" in Pf and cfg["cls"] != "HyperbolicRTransform" else np.array([float(v) for v in tf.domain])
+            img = np.atleast_1d(tf.transform(ref))
+            cod = [float(v) for v in tf.codomain]
+            exp = [cod[0], cod[1]]
+            if cfg["cls"] == "MultiExpRTransform":
+                exp = [cod[1], cod[0]]
+            if trim and hasattr(tf, "trim_inf"):
+                exp = [1e16 if np.isinf(v) and v > 0 else v for v in exp]
+            bad = any(not (abs(g - w) <= 1e-9 * max(1.0, abs(w)) or (np.isinf(w) and g == w)) for g, w in zip(img, exp))
+            return bad, dict(cls=cfg["cls"], params=Pf, reference_points=ref.tolist(), images=[float(v) for v in img], codomain_ends=exp)
+
+    def body():
+        tf = cfg["mk"](rt, P)
+        if hasattr(tf, "trim_inf"):
+            tf.trim_inf = trim
+        if "b" in P and cfg["cls"] != "HyperbolicRTransform":
+            a = np.empty(2, dtype=object)
+            a[0], a[1] = K(0), P["b"]
+        else:
+            dom = tf.domain
+            if any(isinstance(d, float) and np.isinf(d) for d in dom):
+                return None
+            a = np.empty(2, dtype=object)
+            a[0], a[1] = K(dom[0]), K(dom[1])
+        return tf.transform(a), tf.codomain
+    for p in e.run(body):
+        ctx.paths += 1
+        if p.exc is not None:
+            ctx.fail("end points:no-exception", f"{type(p.exc).__name__}: {p.exc}", key=key, replay=replay, model=ctx.model_for(p.pc) or {})
+            continue
+        if p.result is None:
+            ctx.note("half-line domain without scale point: no finite reference end point")
+            continue
+        ctx.twin(p.pc, "ends")
+        img, cod = p.result
+        want = [cod[0], cod[1]]
+        if cfg["cls"] == "MultiExpRTransform":
+            want = [cod[1], cod[0]]            # decreasing map: -1 -> +inf, 1 -> rmin
+        for i in (0, 1):
+            w = want[i]
+            if isinstance(w, float) and np.isinf(w):
+                target = 1e16 if trim else float("inf")
+                ok = (not isinstance(img[i], Sym)) and float(img[i]) == target
+                (ctx.ok if ok else ctx.fail)(f"image of reference point {i} is {'1e16 (trimmed infinity)' if trim else '+inf'}", detail=repr(img[i]), key=key, replay=replay,
+                                             **({} if ok else dict(model=ctx.model_for(p.pc) or {})))
+            else:
+                ctx.eq(f"image of reference point {i} == codomain end {i}", img[i], w, p.pc, replay=replay, key=key)
+
+
+def job_history(ctx: Ctx, cfg, inverse_wrap=False):
+    """array calls and call histories: a second call on an array with the same length / end points but different interior
+    points returns the values for the points it was given (compared with a fresh object)."""
+    rt = _load()
+    npproxy.install(rt)
+    e = ctx.engine
+    P = {n: real(n) for n in cfg["pnames"]}
+    e.assume(*cfg["assume"](P))
+    xs = [real(f"x{i}") for i in range(3)]
+    y1 = real("y1")
+    dom = (lambda v: cfg["dom"](v, P)) if not inverse_wrap else (lambda v: cfg["cod"](v, P))
+    for v in xs + [y1]:
+        e.assume(*dom(v))
+    e.assume(xs[0] < xs[1], xs[1] < xs[2], xs[0] < y1, y1 < xs[2])
+    if cfg["cls"] == "HyperbolicRTransform":
+        e.assume(P["b"] * 2 < 1)
+    key = f"{cfg['cls']}" + (":inverse-wrapped" if inverse_wrap else "") + ":call-history"
+    ctx.encoded(getattr(rt, cfg["cls"]))
+    ctx.bounds.update(dict(cls=cfg["cls"], arrays="length 3, two consecutive calls on one object"))
+    meths = ["transform", "deriv", "deriv2", "deriv3", "inverse"]
+
+    def build():
+        tf = cfg["mk"](rt, P)
+        return rt.InverseRTransform(tf) if inverse_wrap else tf
+
+    def mkarr(vals):
+        a = np.empty(len(vals), dtype=object)
+        a[:] = vals
+        return a
+
+    def replay(m):
+        with unpatched(rt):
+            Pf = _fl(m, cfg["pnames"])
+            A = np.array([float(m.get(f"x{i}", i)) for i in range(3)])
+            B = A.copy()
+            B[1] = float(m.get("y1", 0.5))
+            bad, info = False, dict(cls=cfg["cls"], params=Pf, first=A.tolist(), second=B.tolist())
+            for name in meths:
+                tf = cfg["mk"](rt, Pf)
+                tf = rt.InverseRTransform(tf) if inverse_wrap else tf
+                fresh = getattr(cfg["mk"](rt, Pf) if not inverse_wrap else rt.InverseRTransform(cfg["mk"](rt, Pf)), name)(B.copy())
+                getattr(tf, name)(A.copy())
+                second = getattr(tf, name)(B.copy())
+                if not np.allclose(np.asarray(fresh, float), np.asarray(second, float), rtol=1e-12, atol=0, equal_nan=True):
+                    bad = True
+                    info[name] = dict(after_history=np.asarray(second, float).tolist(), fresh=np.asarray(fresh, float).tolist())
+            return bad, info
+
+    def body():
+        out = {}
+        for name in meths:
+            tf = build()
+            getattr(tf, name)(mkarr(xs))
+            second = getattr(tf, name)(mkarr([xs[0], y1, xs[2]]))
+            fresh = getattr(build(), name)(mkarr([xs[0], y1, xs[2]]))
+            single = [getattr(build(), name)(mkarr([v]))[0] for v in (xs[0], y1, xs[2])]
+            out[name] = (second, fresh, single)
+        return out
+    for p in e.run(body):
+        ctx.paths += 1
+        if p.exc is not None:
+            ctx.fail("history:no-exception", f"{type(p.exc).__name__}: {p.exc}", key=key + ":raises", replay=replay, model=ctx.model_for(p.pc) or {})
+            continue
+        for name, (second, fresh, single) in p.result.items():
+            for i in range(3):
+                ctx.eq(f"{name}: second call [{i}] == fresh object on the same array", second[i], fresh[i], p.pc, replay=replay, key=key)
+                ctx.eq(f"{name}: array call [{i}] == length-1 call on that point", fresh[i], single[i], p.pc, replay=replay, key=key + ":array-vs-scalar")
+
+
 def _sl(cfg, v):
     if not cfg.get("slices"):
         return None
@@ -231,6 +369,12 @@ def jobs(tier):
         js.append(Job(cfg["name"], job_class, cfg))
         if tier == "thorough" or cfg["fk"] in (None, 1):
             js.append(Job(cfg["name"] + "/InverseRTransform", job_class, cfg, inverse_wrap=True))
+        js.append(Job(cfg["name"] + "/end-points", job_endpoints, cfg, True))
+        if tier == "thorough" and cfg["cls"] in ("BeckeRTransform", "MultiExpRTransform", "KnowlesRTransform", "HandyRTransform", "HandyModRTransform"):
+            js.append(Job(cfg["name"] + "/end-points/no-trim", job_endpoints, cfg, False))
+        if cfg["fk"] in (None, 2):
+            js.append(Job(cfg["name"] + "/history", job_history, cfg))
+            js.append(Job(cfg["name"] + "/history/InverseRTransform", job_history, cfg, True))
     only = __import__("os").environ.get("SYMGRID_ONLY")
     if only:
         js = [j for j in js if only in j.name]
@@ -245,7 +389,7 @@ def main():
         PROP, res, t0, "DESIGN.md#c03",
         bounds=dict(classes=12, integer_exponents="k,m in 1..4 (quick) / 1..6 (Knowles, Handy), 1..3 / 1..5 (HandyMod)", x="one symbolic interior point per call (arrays of length 1 and 2)",
                     parameters="all reals under the documented precondition; HandyMod additionally rmax-rmin > 2^m-1"),
-        outside=["non-integer exponents k, m (general real power)", "points on the domain boundary (x = +-1, infinite images / trim_inf replacement values)",
+        outside=["non-integer exponents k, m (general real power)", "derivatives / inverses evaluated exactly on the domain boundary",
                  "IEEE rounding: float arithmetic is read as exact real arithmetic", "HandyMod with rmax-rmin <= 2^m-1 (denominator vanishes inside the domain)"],
         assumptions=["denominators of the executed expressions are non-zero (identities claimed where the implementation's expression is defined)",
                      "exp/log are mutually inverse strictly monotone functions (axioms listed in symgrid/smt.py)"])
